@@ -727,7 +727,11 @@ class Domain(object):
             if recv is not None:
                 deps |= recv.deps
             pure = t.role == 'pure'
-            if pure:
+            last = t.label.split(':')[-1].split('.')[-1]
+            if t.role == 'ctor' or (t.label.startswith('lib:') and last[:1].isupper()):
+                # a constructor call yields an object (never None)
+                res = V('obj', ('new', last, self.site(c)), frozenset(deps))
+            elif pure:
                 res = sym(('pure', t.label, tuple(a.name for a in args)), deps)
             else:
                 res = sym(('call', fr.id, self.site(c)), deps)
@@ -923,6 +927,8 @@ class Domain(object):
                     st2 = st
                     if lab.startswith('exc:') and node.kind in ('raise',) and not node.info.get('reraise'):
                         st2 = st.with_extra(exc_src=node.info.get('what', 'raise'))
+                    elif lab.startswith('exc:') and node.kind == 'branch':
+                        st2 = st.with_extra(exc_src='iterator:%s' % node.info.get('what', ''))
                     st2 = self.on_edge(node, lab, dst, st2)
                     if st2 is None:
                         continue
